@@ -272,7 +272,10 @@ Fixpoint vdepth (t : ty) : N :=
   end.
 
 (* bytes of memory per input byte along the most expensive path *)
-Definition vec_ratio (a : ty) : N := (5 * mem_size a) / N.max 1 (min_size a) + 5 * mem_size a.
+(* a Vec buffer costs at most 7 element sizes per input byte of the vector: the up-front reservation is at most one
+   slot per claimed element, RawVec doubling at most 4 slots per parsed element + 16, and every parsed element
+   consumed at least one byte (see vec_ok) *)
+Definition vec_ratio (a : ty) : N := 7 * mem_size a.
 Fixpoint cfac (t : ty) : N :=
   match t with
   | Vec a => vec_ratio a + cfac a
@@ -304,6 +307,25 @@ Definition scratch_reserve (tr : bool) (t : ty) : N := if negb tr && has_prog t 
 (* peak = meter + the one transient scratch reserve;  bound = one 2 MiB reservation per nesting level,
    one for the scratch reserve, and cfac bytes per input byte *)
 Definition alloc_bound (t : ty) (len : N) : N := (vdepth t + 1) * MiB2 + cfac t * len.
+
+(* side condition of the bound: every Vec element type either needs at least one input byte or occupies no memory
+   (a zero-sized element type: Rust then never allocates, the model's mem_size is 0).  A Vec of an element type
+   with an EMPTY encoding but NON-ZERO size would grow without consuming input; no such type exists in the universe
+   (min_size t = 0 -> mem_size t = 0), the check below is the per-type computable form *)
+Section VecOk.
+  Variable p : ty -> bool.
+  Fixpoint all_t (ts : list ty) : bool := match ts with [] => true | t :: r => p t && all_t r end.
+  Fixpoint all_f (fs : list (string * ty)) : bool := match fs with [] => true | f :: r => p (snd f) && all_f r end.
+End VecOk.
+Fixpoint vec_ok (t : ty) : bool :=
+  match t with
+  | Vec a => ((1 <=? min_size a) || (mem_size a =? 0)) && vec_ok a
+  | Opt a | Arr _ a => vec_ok a
+  | Tup ts => all_t vec_ok ts
+  | Struct _ _ fs => all_f vec_ok fs
+  | Opt2 a b => vec_ok a && vec_ok b
+  | _ => true
+  end.
 
 (* ---------- witness of finding F-C14-1 ---------- *)
 (* a v2 ProofOfSpace (prefix byte 0b11: contract puzzle hash present, version 1) with the infinity plot key and a
